@@ -115,7 +115,7 @@ ClCheck(c, op, o, ev) ==
   \cup (IF ev.e = "seen" /\ ev.j \in DOMAIN o.msg
            /\ (HasUnknownName(ev.lab)
                \/ Restrict(LabFun(ev.lab), DeclNames) # Restrict(o.msg[ev.j].exp, DeclNames)
-               \/ (ev.pt \in {"mw", "ctx"} /\ LabFun(ev.lab) # o.msg[ev.j].exp))
+               \/ (ev.pt \in {"mw", "ctx", "res"} /\ LabFun(ev.lab) # o.msg[ev.j].exp))
         THEN {"C09_TypedEndToEnd"} ELSE {})
   \cup (IF ev.e \in {"seen", "exec", "save"} /\ ev.j \in DOMAIN o.msg /\ ev.tid # o.msg[ev.j].tid
         THEN {"C09_TaskIdAtWorker"} ELSE {})
